@@ -890,3 +890,33 @@ Proof.
   assert (i / g = j / g) by nia.
   apply Hne. rewrite (Z.div_mod i g), (Z.div_mod j g) by lia. congruence.
 Qed.
+
+(* ====================================================================== zero-width fonts (the null font) *)
+(* character width 0 and spacing 0: MonoFont::glyph takes its early exit, no element is drawn, the line has no width *)
+Lemma line_width_zero f n : f_cw f = 0 -> f_sp f = 0 -> line_width f n = 0.
+Proof. intros H1 H2. unfold line_width. destruct n; [reflexivity|]. rewrite H1, H2. lia. Qed.
+
+Lemma draw_string_binary_zero_width F s m text pos :
+  f_cw (mf_geom F) = 0 -> f_sp (mf_geom F) = 0 ->
+  draw_string_binary F s m pos text = ([], pos).
+Proof.
+  intros Hcw Hsp. unfold draw_string_binary.
+  assert (He : forall pe, draw_elem F s m pe = []).
+  { intros [p [c|]]; unfold draw_elem; cbn [fst snd].
+    - unfold glyph_area. rewrite Hcw. cbn. reflexivity.
+    - rewrite Hsp. reflexivity. }
+  f_equal.
+  - induction (fst (line_elements (mf_geom F) pos text)) as [|pe l IH]; [reflexivity|].
+    cbn [flat_map]. rewrite He, IH. reflexivity.
+  - rewrite line_elements_snd, line_width_zero by assumption. destruct pos as [x y]. cbn [px py]. f_equal. lia.
+Qed.
+
+Theorem draw_string_zero_width F s text pos b :
+  f_cw (mf_geom F) = 0 -> f_sp (mf_geom F) = 0 ->
+  draw_string F s text pos b = ([], pos).
+Proof.
+  intros Hcw Hsp. unfold draw_string.
+  destruct (cs_text s) as [t|], (cs_bg s) as [g|]; rewrite ?draw_string_binary_zero_width by assumption;
+    cbn [fst snd px py app]; rewrite ?Hcw, ?Hsp; cbn [Z.add Z.mul];
+    rewrite ?Z.add_0_r, Z.ltb_irrefl; f_equal; destruct pos as [x y]; cbn [px py]; f_equal; lia.
+Qed.
